@@ -244,7 +244,7 @@ func newExec(t *testing.T) func([]string) string {
 	rs := &reloadState{}
 	return func(a []string) string {
 		switch a[0] {
-		case "reset", "cfgload", "cfgreload", "probe":
+		case "reset", "cfgload", "cfgreload", "cfgreloadx", "probe":
 			return rs.exec(a)
 		case "new":
 			c, e := newCR(a[1], a[2], a[3])
